@@ -15,7 +15,7 @@
    What a model of immutable values cannot express — the caller's slices are left unmodified, genuinely repeated calls in one
    process, state kept between calls — is validated at run time by the Det:<Function> entries (DC16.v, harness/props/c16). *)
 From Coq Require Import ZArith Lia List Bool Permutation String.
-From SID Require Import Base Str Ids ZoomCore Shift ChangeZoom Merge MergeProof MergeIdem Neighbour Notation SetOps.
+From SID Require Import Base Str Ids ZoomCore Shift ChangeZoom Merge MergeProof MergeRegion MergeIdem MergeApi Neighbour Notation SetOps.
 Import ListNotations.
 Open Scope Z_scope.
 
@@ -49,7 +49,7 @@ Proof.
   - intros Ha. exists a. split; [exact Ha|now left].
 Qed.
 Lemma repeat_in_place_same_members {A} (l1 l2 : list A) (a : A) (k : nat) :
-  same_members (l1 ++ repeat a (S k) ++ l2) (l1 ++ a :: l2).
+  same_members (l1 ++ repeat a (Datatypes.S k) ++ l2) (l1 ++ a :: l2).
 Proof.
   intros b. rewrite !in_app_iff. cbn [In repeat]. split.
   - intros [H|[[H|H]|H]]; auto. apply repeat_spec in H. subst. auto.
@@ -115,7 +115,7 @@ Section Generic.
   Corollary sv_stutter l : Permutation (set_valued dd g (stutter l)) (set_valued dd' g l).
   Proof. apply sv_set_only, stutter_same_members. Qed.
   Corollary sv_repeat_in_place l1 l2 a k :
-    Permutation (set_valued dd g (l1 ++ repeat a (S k) ++ l2)) (set_valued dd' g (l1 ++ a :: l2)).
+    Permutation (set_valued dd g (l1 ++ repeat a (Datatypes.S k) ++ l2)) (set_valued dd' g (l1 ++ a :: l2)).
   Proof. apply sv_set_only, repeat_in_place_same_members. Qed.
 End Generic.
 
@@ -157,7 +157,7 @@ Section MapOrder.
   Proof. apply F_input_set_only, app_self_same_members. Qed.
   Theorem F_repeated_in_place l : Permutation (F ord (stutter l)) (F ord' l).
   Proof. apply F_input_set_only, stutter_same_members. Qed.
-  Theorem F_one_entry_repeated l1 l2 a k : Permutation (F ord (l1 ++ repeat a (S k) ++ l2)) (F ord' (l1 ++ a :: l2)).
+  Theorem F_one_entry_repeated l1 l2 a k : Permutation (F ord (l1 ++ repeat a (Datatypes.S k) ++ l2)) (F ord' (l1 ++ a :: l2)).
   Proof. apply F_input_set_only, repeat_in_place_same_members. Qed.
   Theorem F_NoDup l : NoDup (F ord l).
   Proof. apply (sv_NoDup _ g (map_order_dedupe eqb eqb_spec ord P)). Qed.
@@ -208,12 +208,19 @@ Qed.
 Theorem change_sid_api_deterministic ids ids' z :
   (forall i, In i ids -> valid i /\ ev i = eh i) -> 0 <= z <= 35 -> same_members ids ids' ->
   exists r r', change_sid_api (map ChangeZoom.print_sid ids) z = Ok r /\ change_sid_api (map ChangeZoom.print_sid ids') z = Ok r' /\
-               Permutation r r'.
+               Permutation r r' /\ NoDup r.
 Proof.
   intros Hv Hz E.
   exists (map ChangeZoom.print_sid (change_eids ids z z)), (map ChangeZoom.print_sid (change_eids ids' z z)).
   split; [apply change_sid_api_spec; assumption|]. split; [apply change_sid_api_spec; try assumption; apply (same_members_valid _ _ _ E Hv)|].
-  apply Permutation_map. apply (change_deterministic (fun l => l) (fun l => l) id_is_order id_is_order ids ids' z z E).
+  split; [apply Permutation_map; apply (change_deterministic (fun l => l) (fun l => l) id_is_order id_is_order ids ids' z z E)|].
+  apply NoDup_map_in; [|apply change_NoDup]. intros a b Ha Hb Hab.
+  assert (Va : valid a) by (apply (change_valid ids z z a (fun i Hi => proj1 (Hv i Hi)) Hz Hz Ha)).
+  assert (Vb : valid b) by (apply (change_valid ids z z b (fun i Hi => proj1 (Hv i Hi)) Hz Hz Hb)).
+  destruct (change_at_zoom ids z z a Ha) as [A1 A2], (change_at_zoom ids z z b Hb) as [B1 B2].
+  pose proof (ChangeZoom.parse_print_sid a (valid_fields_ok a Va) ltac:(congruence)) as Pa.
+  pose proof (ChangeZoom.parse_print_sid b (valid_fields_ok b Vb) ltac:(congruence)) as Pb.
+  rewrite Hab in Pa. congruence.
 Qed.
 
 (* ---- B2. merge (integrate.MergeExtendedSpatialIds): two maps (dictionary of target voxels, final Unique) ---- *)
@@ -226,6 +233,39 @@ Proof.
 Qed.
 Theorem merge_no_duplicates ord : (forall l, Permutation (ord l) l) -> forall H V l, NoDup (merge ord H V l).
 Proof. exact (merge_NoDup ord). Qed.
+
+(* the exported functions on printed valid IDs (the executable model = first-occurrence order; any other map order only permutes) *)
+Theorem merge_ext_api_deterministic l l' H V :
+  0 <= H <= 35 -> 0 <= V <= 35 -> (forall i, In i l -> valid i) -> fits64 H V l -> fits64 H V l' -> same_members l l' ->
+  exists r r', merge_ext_api (map print_eid l) H V = Ok r /\ merge_ext_api (map print_eid l') H V = Ok r' /\ Permutation r r' /\ NoDup r.
+Proof.
+  intros HH HV Hv F F' E. pose proof (same_members_valid _ _ _ E Hv) as Hv'.
+  exists (map print_eid (merge_x H V l)), (map print_eid (merge_x H V l')).
+  split; [exact (merge_ext_api_ok l H V HH HV Hv F)|]. split; [exact (merge_ext_api_ok l' H V HH HV Hv' F')|]. split.
+  - apply Permutation_map. apply (merge_deterministic (fun x => x) (fun x => x) id_is_order id_is_order); try lia; [|exact E].
+    intros i Hi. apply valid_wfz, Hv, Hi.
+  - apply NoDup_map_in; [|apply (merge_NoDup (fun x => x) id_is_order)]. intros a b Ha Hb.
+    apply ChangeZoom.print_eid_inj; apply valid_fields_ok;
+      apply (merge_valid (fun x => x) id_is_order H V l ltac:(lia) ltac:(lia) Hv); assumption.
+Qed.
+Theorem merge_sid_api_deterministic l l' z :
+  0 <= z <= 35 -> (forall i, In i l -> valid i /\ ev i = eh i) -> fits64 z z l -> fits64 z z l' -> same_members l l' ->
+  exists r r', merge_sid_api (map MergeApi.print_sid l) z = Ok r /\ merge_sid_api (map MergeApi.print_sid l') z = Ok r' /\ Permutation r r' /\ NoDup r.
+Proof.
+  intros Hz Hv F F' E. pose proof (same_members_valid _ _ _ E Hv) as Hv'.
+  exists (map MergeApi.print_sid (merge_x z z l)), (map MergeApi.print_sid (merge_x z z l')).
+  split; [exact (merge_sid_api_ok l z Hz Hv F)|]. split; [exact (merge_sid_api_ok l' z Hz Hv' F')|]. split.
+  - apply Permutation_map. apply (merge_deterministic (fun x => x) (fun x => x) id_is_order id_is_order); try lia; [|exact E].
+    intros i Hi. apply valid_wfz, Hv, Hi.
+  - apply NoDup_map_in; [|apply (merge_NoDup (fun x => x) id_is_order)]. intros a b Ha Hb Hab.
+    assert (Va : valid a) by (apply (merge_valid (fun x => x) id_is_order z z l ltac:(lia) ltac:(lia) (fun i Hi => proj1 (Hv i Hi))); exact Ha).
+    assert (Vb : valid b) by (apply (merge_valid (fun x => x) id_is_order z z l ltac:(lia) ltac:(lia) (fun i Hi => proj1 (Hv i Hi))); exact Hb).
+    pose proof (merge_sid_zooms l z ltac:(lia) Hv a Ha) as Za. pose proof (merge_sid_zooms l z ltac:(lia) Hv b Hb) as Zb.
+    pose proof (ChangeZoom.parse_print_sid a (valid_fields_ok a Va) Za) as Pa.
+    pose proof (ChangeZoom.parse_print_sid b (valid_fields_ok b Vb) Zb) as Pb.
+    change (ChangeZoom.print_sid a) with (MergeApi.print_sid a) in Pa. change (ChangeZoom.print_sid b) with (MergeApi.print_sid b) in Pb.
+    rewrite Hab in Pa. congruence.
+Qed.
 
 (* ---- B3. neighbourhoods (operated.GetNspatialIdsAroundVoxcels): for every offset, for every ID, shift; then Unique ---- *)
 Lemma nN_api_ok_inv ids H V r : nN_api ids H V = Ok r ->
